@@ -199,6 +199,15 @@ def uf_axioms(exprs):
                     out.append(e >= 0)
                 elif n == "sqi":
                     out.append(z3.And(e >= 0, e <= 2**58))
+            elif e.decl().kind() == z3.Z3_OP_UNINTERPRETED and e.num_args() == 2 and n == "div":
+                # the uninterpreted quotient agrees with real division for the small integer divisors that counts can take
+                a_, b_ = e.arg(0), e.arg(1)
+                if z3.is_rational_value(b_):
+                    if not z3.is_true(z3.simplify(b_ == 0)):
+                        out.append(e == a_ / b_)
+                else:
+                    for k in range(1, 9):
+                        out.append(z3.Implies(b_ == k, e == a_ / z3.RealVal(k)))
             stack.extend(e.children())
     return out
 
